@@ -49,6 +49,15 @@ the Lean model):
   needs more than 10^5 divisions per bar (cases of kind `near`).
 * the wrapper partitura.utils.generic.interp1d called directly (kind `lin`): the oracle only states what it documents - the
   interpolant passes through its knots, one knot gives a constant function, the result has the argument's shape.
+* a table argument of `use_musical_beat` / `set_musical_beat_per_ts` that is not a dict is invalid input (the docstrings say
+  "dict"); the statement says nothing about it.  The oracle only requires what holds under every reading: the maps of the
+  part afterwards follow the musical beats and the mode the part shows (whether a rejected `use_musical_beat` leaves the part
+  in musical mode is adopted from the part - the code does switch, see Model/TimeMapApi.lean); which calls raise and the
+  state afterwards are compared with the model (requests `raised`, `hist`, `mbs`).
+* a first measure without an end (`part.add(Measure(), t)`) has no length, so it is no pickup measure: zero lies at the first
+  time point.  When a measure with an end starts at the first time point too (two measures starting together are outside
+  the statement), either may be taken for "the" first measure; the model mirrors the code (the one added first).
+* `Part(id)` without `quarter_duration`: one division per quarter (the documented default of the signature).
 * two parts of one score (same quarter durations, signatures, beat mode; different extents) are checked as parts; the
   difference of their maps at common positions is only compared with the model (C02.origin_common_across_parts: the
   constant shift2 - shift1) - the statement itself says nothing about it.
@@ -65,7 +74,9 @@ PROPERTY = "C02"
 DRIVER = "drv_c02"
 PROPS = ["PartituraModel.Props.C02", "PartituraModel.Props.C02Args", "PartituraModel.Props.C02Musical",
          "PartituraModel.Props.C02Origin", "PartituraModel.Props.C02History", "PartituraModel.Props.C02Calls",
-         "PartituraModel.Props.C02Scipy", "PartituraModel.Props.C02Source"]
+         "PartituraModel.Props.C02Scipy", "PartituraModel.Props.C02Source", "PartituraModel.Props.C02Written",
+         "PartituraModel.Props.C02Api", "PartituraModel.Props.C02Probed", "PartituraModel.Props.C02Toggle",
+         "PartituraModel.Props.C02Compose"]
 TRUSTED = [
     "numpy primitives below the interpolation stack, modelled as small Lean functions (Model/TimeMapScipy.lean): np.searchsorted "
     "/ the binary search of np.interp on a SORTED array = length of the leading run `< x` resp. `<= x` (searchLeft / searchRight), "
@@ -95,6 +106,11 @@ TRUSTED = [
     "implementation's own knot value may fall outside by one ulp: inv_beat_map(float(Fraction(-5, 3))) is NaN at the first point "
     "of a 6/8 pickup part although inv_beat_map(beat_map(0)) is 0.0); the ends of the image are compared through the round trip "
     "inv(fwd(x)) at every key point (request rt), where np.interp copies the stored knot (C02.np_copies_at_key_points, inv_at_ends)",
+    "harness/translate_c02.py (gen_c02api) PROBES the live use_musical_beat / use_notated_beat / set_musical_beat_per_ts / "
+    "TimeSignature() / quarter_durations / set_quarter_duration on small real parts (every combination of mode x argument kind, "
+    "key in table x numerator in MUSICAL_BEATS, value before t x entry at t) and writes the decision tables to Gen/C02Api.lean; "
+    "Props/C02Probed.lean proves that the model follows them for ALL states / tables / lists.  The probes cover the abstract "
+    "cases of each decision, not every concrete value - the concrete values are the correspondence's job",
     "harness/translate_c02.py reads the flags of the four public properties, the initial values of the carry loop, the beat-"
     "factor and bar-length expressions, the pickup tolerance, Part.__init__ and the wrapper's keyword defaults from the live "
     "source by ast (Gen/C02Source.lean, theorems of Props/C02Source.lean); locals may be renamed and expressions rewritten "
@@ -109,10 +125,16 @@ PARTIAL = [
     "(built_first_key_zero).  The statement's wording therefore fails for late-starting parts: open finding F-C02-1, negation "
     "proved at the witness (origin_late_start_counterexample, origin_late_pickup_counterexample); it is kept because all parts "
     "of a score share the origin (origin_common_across_parts, built_common_origin)",
-    "the maps AS WRITTEN (fwdS / invS) equal the maps of the theorems under `tolInactiveB` (the first measure is not within "
-    "numpy.isclose of a full bar - decidable, true below 10^5 divisions per bar); where the guard bites the code puts zero at the "
-    "first time point although the measure is (a few millionths) short: tolerance_bites_at_huge_divisions, accepted as the "
-    "documented repair C02-3",
+    "the PLACE OF ZERO of the maps as written is the one of the origin theorems only under `tolInactiveB` (the first measure "
+    "is not within numpy.isclose of a full bar - decidable, true below 10^5 divisions per bar); where the guard bites the code "
+    "puts zero at time 0 although the measure is (a few millionths) short - proved (origin_as_written, "
+    "tolerance_bites_at_huge_divisions), accepted as the documented repair C02-3.  Every other clause (exact advance, monotone, "
+    "continuity, round trip, domain, NaN) is proved for the maps as written WITHOUT that hypothesis "
+    "(property_as_written_unconditional, fwdS_eq_effective)",
+    "a rejected use_musical_beat(<not a dict>) leaves the part in musical mode (the switch is flipped before the argument is "
+    "checked) and makes a later accepted use_musical_beat(table) a no-op: mirrored and proved as such (rejected_useMusical), "
+    "not judged by the oracle - the statement does not cover invalid arguments; non-dict arguments that compare EQUAL to {} "
+    "(an empty UserDict: accepted silently by use_musical_beat) are not generated",
     "musical beats are positive integers (what the docstring calls 'the number of musical beats'); non-integer table values "
     "are not modelled or generated",
     "set_quarter_duration: the model mirrors the list surgery; proved: the lists stay strictly increasing, positive and start "
@@ -126,7 +148,9 @@ PARTIAL = [
     "the one-knot branch of generic.interp1d is modelled for scalar and 1-d arguments (the five maps never reach it: fewer than "
     "two time points are answered by two lambdas, a single quarter duration is duplicated); for a 2-d argument it returns a 1-d "
     "result - observed, outside the statement (measure_map is C10's)",
-    "two time signatures or two measures starting at the same time are not generated (iteration order is C10's subject)",
+    "two time signatures starting at the same time are not generated (iteration order is C10's subject); two measures starting "
+    "at the first time point are generated only as one with and one without an end (api cases: the one added first decides, "
+    "open_first_measure_zero; the oracle accepts either)",
     "non-positive divisions or signature numbers (WF / ValidOp fail) are outside the theorems and the generator",
 ]
 RULE = ("real partitura.score.Part objects built through Part(), set_quarter_duration, add(TimeSignature/Measure/Note), "
@@ -148,7 +172,10 @@ RULE = ("real partitura.score.Part objects built through Part(), set_quarter_dur
         "repeated abscissa, float64 / int64 / float32 ordinates = both of scipy's linear code paths, kind linear / previous, "
         "default / tuple fill values, queries at, between and outside the knots, NaN and infinities) and one part in ten "
         "with 10^6-10^7 divisions per bar whose first measure is a few divisions short of a bar (inside / outside "
-        "numpy.isclose), full or overfull; "
+        "numpy.isclose), full or overfull; one API-edge part per five (own generator): Part(id) without quarter_duration, "
+        "use_musical_beat / set_musical_beat_per_ts with a table argument that is not a dict (None, list, tuple, str, int, UserDict; "
+        "alone, before / after accepted calls, while already musical, before / after signatures are added), a first measure "
+        "without an end (alone, added before / after a measure with an end that starts with it), queries in between; "
         "distinct = distinct structural description incl. the history; non-trivial = at least two time points")
 LEVEL_TEXT = ("Lean 4 theorems (all knot lists, all rationals, all histories - by induction over the key-point list resp. the "
               "edit history) about an executable model of Part._time_interpolator, the four maps, quarter_duration_map, "
@@ -157,8 +184,13 @@ LEVEL_TEXT = ("Lean 4 theorems (all knot lists, all rationals, all histories - b
               "constructor, np.interp / _call_linear / _call_previousnext, bounds fill, pickup tolerance) is modelled as written "
               "and proved equal to the simple recursive maps on every well-formed part, so the statement is proved for the code "
               "as written (C02.property_as_written); every part reachable through the API is proved well formed, so the "
-              "theorems apply to it without side conditions other than two time points and a first bar that is not within "
-              "rounding tolerance of a full one.  Literal data of the source (flags of the public properties, initial values, "
+              "theorems apply to it without side conditions other than two time points - the tolerance of the pickup test only "
+              "matters for the place of zero, which is characterised in both cases (C02.property_as_written_unconditional, "
+              "origin_as_written); parts reached through rejected calls, the default quarter duration or end-less measures are "
+              "proved to be parts of that kind (C02.xbuild_is_build, api_parts_property); switching to musical beats and back "
+              "restores every map (C02.toggle_restores_maps).  The decision tables of the musical-beat switches, of the value a "
+              "signature receives, of quarter_durations' bounds and of set_quarter_duration are regenerated by probing the live "
+              "functions and the model is proved to follow them for all inputs (Props/C02Probed.lean).  Literal data of the source (flags of the public properties, initial values, "
               "factor and bar-length expressions, tolerance, defaults) is regenerated from the live source on every run.  The "
               "model is run against the real implementation on generated parts at every integer position (arrays, scalars, "
               "other shapes, non-finite values), the state the model computes from the edit/query history is compared exactly "
@@ -493,6 +525,57 @@ def gen_pair(rng, scramble=False):
     return {"kind": "pair", "a": a, "b": b}
 
 
+def gen_api(rng):
+    """a short part built through the edges of the API (round 6): `Part(id)` without `quarter_duration`, musical-beat calls
+    whose table argument is not a dict (rejected; alone, before / after accepted calls, while already in musical mode), a
+    first measure without an end (alone, added before / after a measure with an end that starts with it); the history is
+    the canonical order of the edits with queries in between (measures starting together keep their order of addition)"""
+    q0_default = rng.random() < 0.4
+    q0 = 1 if q0_default else rng.choice(SMALL_DIVS)
+    b, bt = rng.choice(SIGS)
+    qd = []
+    if rng.random() < 0.5:
+        qd.append([rng.choice([0, 0, rng.randint(1, 12)]), rng.choice(SMALL_DIVS)])
+    qeff = qd[0][1] if qd and qd[0][0] == 0 else q0
+    L = max(2, math.ceil(F(b * 4 * qeff, bt)))
+    shape = rng.choice(["open", "open", "open+closed", "closed+open", "closed", "none"])
+    ln = rng.randint(1, L - 1) if rng.random() < 0.75 else L
+    measures = {"open": [[0, None]], "open+closed": [[0, None], [0, ln]], "closed+open": [[0, ln], [0, None]],
+                "closed": [[0, ln]], "none": []}[shape]
+    t = ln if shape != "none" else 0
+    for _ in range(rng.randint(1, 3)):
+        measures.append([t, t + L])
+        t += L
+    last = t
+    adds = [["ts", 0, b, bt]] if rng.random() < 0.9 else []
+    if rng.random() < 0.4:
+        b2, bt2 = rng.choice(SIGS)
+        adds.append(["ts", rng.randint(1, last - 1), b2, bt2])
+    sigs = [(o[2], o[3]) for o in adds] or [(4, 4)]
+    x = lambda: rng.randrange(len(BAD_ARGS))
+    tbl = lambda: _table(rng, sigs)
+    pattern = rng.choice([
+        [["musx", x()]], [["setx", x()]], [["mus", tbl()], ["musx", x()]], [["musx", x()], ["not"]],
+        [["musx", x()], ["set", tbl()]], [["setx", x()], ["mus", {}]], [["musx", x()], ["mus", tbl()]],
+        [["set", tbl()], ["setx", x()], ["mus", {}]], [["mus", tbl()], ["setx", x()]], [["musx", x()], ["not"], ["musx", x()]],
+        [["mus", {}], ["not"], ["musx", x()], ["set", tbl()]], [], [["mus", tbl()]]])
+    k = rng.randint(0, len(adds)) if rng.random() < 0.25 else len(adds)
+    ops = adds[:k] + pattern + adds[k:]
+    d = {"kind": "part", "q0": q0, "first": 0, "last": last, "qd": qd, "ops": ops, "measures": measures,
+         "notes": [[0, last]], "mode": "api/" + shape + ("/default-q0" if q0_default else ""),
+         "halves": [rng.randint(0, last - 1) for _ in range(2)]}
+    if q0_default:
+        d["q0_default"] = True
+    hist = []
+    for st in canonical_hist(d):
+        hist.append(st)
+        if rng.random() < 0.3:
+            hist.append(["q"])
+    if rng.random() < 0.7:
+        d["hist"] = hist
+    return d
+
+
 def cases(rng, tier):
     n = {"quick": 150, "thorough": 5000, "search": 2500}.get(tier, 150)
     for t in (0, 7):
@@ -503,11 +586,14 @@ def cases(rng, tier):
     import random as _random
 
     aux = _random.Random(str(rng.getstate()[1][:16]))
+    aux2 = _random.Random("api" + str(rng.getstate()[1][:16]))
     for i in range(n):
         if i % 3 == 0:
             yield gen_lin(aux)
         if i % 10 == 0:
             yield gen_near(aux)
+        if i % 5 == 2:
+            yield gen_api(aux2)
         if i % 8 == 7:
             d = gen_exact_bar(rng)
         elif i % 8 == 3:
@@ -531,14 +617,15 @@ def cases(rng, tier):
 def extent(d):
     """(first, last) time point of the part a description builds: every start/end of an added object"""
     ts = [o[1] for o in d["ops"] if o[0] == "ts"]
-    times = ts + [x for m in d["measures"] for x in m] + [x for n in d["notes"] for x in n]
+    times = ts + [x for m in d["measures"] for x in m if x is not None] + [x for n in d["notes"] for x in n]
     return min(times), max(times)
 
 
 class Spec:
     """exact maps from the property statement for a case description"""
+    musx_seen = False
 
-    def __init__(self, d):
+    def __init__(self, d, musx_sets=True):
         self.first, self.last = extent(d)
         # the quarter durations the call history dictates (three readings, see the module docstring); `stored` until
         # `_eval_part` finds that the part follows another admissible one
@@ -569,10 +656,23 @@ class Spec:
                 if musical:
                     musical = False
                     assign({})
+            elif op[0] == "musx":
+                # use_musical_beat(<not a dict>) raises; whether the part is in musical mode afterwards is not stated
+                # anywhere: `musx_sets` chooses (the caller adopts what the part shows); no table is ever applied
+                if not musical:
+                    self.musx_seen = True
+                    musical = bool(musx_sets)
         self.musical = musical
         self.ts = sorted(ts)
-        m1 = [m for m in d["measures"] if m[0] == self.first]
+        # the first measure starting at the first time point, in the order of addition; a measure without an end has no
+        # length, so it is no pickup measure.  When a measure WITH an end starts there too, either may be "the" first
+        # measure of the statement (two measures starting together: outside the statement) - `m1_alt` is the other one
+        seq = [s for s in (d.get("hist") or []) if s[0] == "mea"] or [["mea"] + list(m) for m in d["measures"]]
+        m1 = [[s[1], s[2]] for s in seq if s[1] == self.first]
         self.m1 = m1[0] if m1 else None
+        self.m1_alt = None
+        if self.m1 is not None and any((m[1] is None) != (self.m1[1] is None) for m in m1):
+            self.m1_alt = [m for m in m1 if (m[1] is None) != (self.m1[1] is None)][0]
 
     def follow(self, observed_steps):
         """where the readings differ: adopt the one whose step function the part shows (if any)"""
@@ -622,16 +722,17 @@ class Spec:
             c[u] = acc
         return c
 
-    def origin(self, unit, c):
+    def origin(self, unit, c, alt=False):
         """(time at which the map is zero, is_pickup)"""
-        if self.m1 is not None:
+        m1 = self.m1_alt if alt else self.m1
+        if m1 is not None and m1[1] is not None:
             s = [x for x in self.ts if x[0] == self.first]
             if s:
                 s = s[0]
-                actual = c[self.m1[1]] - c[self.first]
+                actual = c[m1[1]] - c[self.first]
                 normal = F(s[1] * 4, s[2]) if unit == "quarter" else F(s[3] if self.musical else s[1])
                 if actual < normal:
-                    return self.m1[1], True
+                    return m1[1], True
         return self.first, False
 
 
@@ -640,9 +741,21 @@ def close(a, b, scale=1.0, tol=1e-9):
 
 
 # ------------------------------------------------------------------ evaluation
-def _apply(p, S, step, counter, warm):
+BAD_ARGS = ["None", "[]", "[('6/8', 3)]", "'6/8'", "3", "UserDict({'6/8': 3})", "(('6/8', 3),)"]
+
+
+def bad_arg(i):
+    """an argument for `mbeats_per_ts` that is not a dict (and compares unequal to {})"""
+    from collections import UserDict
+
+    return eval(BAD_ARGS[i % len(BAD_ARGS)], {"UserDict": UserDict})
+
+
+def _apply(p, S, step, counter, warm, raised=None):
     """one step of a history on a real Part"""
     k = step[0]
+    if raised is not None:
+        raised.append(False)
     if k == "qd":
         p.set_quarter_duration(step[1], step[2])
     elif k == "ts":
@@ -653,9 +766,19 @@ def _apply(p, S, step, counter, warm):
         p.use_musical_beat(dict(step[1]))
     elif k == "not":
         p.use_notated_beat()
+    elif k in ("musx", "setx"):
+        # a table argument that is not a dict: TypeError (any other outcome is reported through the `raised` stream)
+        try:
+            (p.use_musical_beat if k == "musx" else p.set_musical_beat_per_ts)(bad_arg(step[1]))
+        except TypeError:
+            if raised is not None:
+                raised[-1] = True
     elif k == "mea":
         counter[0] += 1
-        p.add(S.Measure(number=counter[0]), step[1], step[2])
+        if step[2] is None:
+            p.add(S.Measure(number=counter[0]), step[1])
+        else:
+            p.add(S.Measure(number=counter[0]), step[1], step[2])
     elif k == "note":
         counter[1] += 1
         p.add(S.Note(step="C", octave=4, voice=1, id="n%d" % counter[1]), step[1], step[2])
@@ -690,18 +813,21 @@ def canonical_hist(d):
             + [["mea", s, e] for s, e in d["measures"]] + [["note", s, e] for s, e in d["notes"]])
 
 
-def build(d, hist=None, warm=None):
+def build(d, hist=None, warm=None, raised=None):
     """the real Part of a description; `hist` = the steps to run (default: canonical order, no queries)"""
     import partitura.score as S
 
-    p = S.Part("P0", quarter_duration=d["q0"])
+    # `q0_default`: the part is created without `quarter_duration` (the documented default is one division per quarter)
+    p = S.Part("P0") if d.get("q0_default") else S.Part("P0", quarter_duration=d["q0"])
     counter = [0, -1, 0]
     warm = [] if warm is None else warm
     for step in (canonical_hist(d) if hist is None else hist):
         if step[0] == "grace":
+            if raised is not None:
+                raised.append(False)
             p.add(S.GraceNote(grace_type="acciaccatura", step="C", octave=4), step[1], step[1])
         else:
-            _apply(p, S, step, counter, warm)
+            _apply(p, S, step, counter, warm, raised)
     return p
 
 
@@ -745,6 +871,8 @@ def ops_tokens(d):
             ops.append("ts %d %d %d" % (op[1], op[2], op[3]))
         elif op[0] in ("set", "mus"):
             ops.append("%s %s" % (op[0], _tbl_tokens(op[1])))
+        elif op[0] in ("musx", "setx"):
+            ops.append(op[0])
         else:
             ops.append("not")
     return " ".join([str(len(ops))] + ops)
@@ -778,7 +906,11 @@ def hist_tokens(d, hist):
     """`<q0> <n> step*` for the model's own builder"""
     out = []
     for s in hist:
-        if s[0] in ("qd", "mea"):
+        if s[0] == "mea" and s[2] is None:
+            out.append("meao %d" % s[1])
+        elif s[0] in ("musx", "setx"):
+            out.append(s[0])
+        elif s[0] in ("qd", "mea"):
             out.append("%s %d %d" % (s[0], s[1], s[2]))
         elif s[0] == "note":
             out.append("span %d %d" % (s[1], s[2]))
@@ -792,7 +924,7 @@ def hist_tokens(d, hist):
             out.append("not")
         elif s[0] in ("q", "w"):
             out.append("q")
-    return " ".join(["%d %d" % (d["q0"], len(out))] + out)
+    return " ".join(["%s %d" % ("-" if d.get("q0_default") else "%d" % d["q0"], len(out))] + out)
 
 
 def state_text(p):
@@ -1044,9 +1176,14 @@ def _eval_part(d):
     ev = Eval()
     warm = []
     hist = d.get("hist")
-    p = build(d, hist, warm)
+    raised = []
+    p = build(d, hist, warm, raised)
     ev.oracle += warm
     head = part_tokens(p, d)
+    if any(s[0] in ("musx", "setx") for s in (hist if hist is not None else canonical_hist(d))):
+        # which calls were rejected (TypeError), call by call
+        ev.requests.append("raised " + hist_tokens(d, hist if hist is not None else canonical_hist(d)))
+        ev.impl.append(W.f_list(W.f_bool, raised))
     # the model builds the state _time_interpolator reads from the edit/query history alone
     try:
         ev.requests.append("hist " + hist_tokens(d, hist if hist is not None else canonical_hist(d)))
@@ -1092,6 +1229,15 @@ def _eval_part(d):
         return ev, p, head, maps
 
     sp = Spec(d)
+    if sp.musx_seen:
+        # a rejected use_musical_beat: the statement does not say whether musical beats are enabled afterwards; the part may
+        # follow either reading (the mode and the musical beats it shows decide)
+        import partitura.score as S
+
+        shown = (bool(p._use_musical_beat), [[s.start.t, s.beats, s.beat_type, s.musical_beats] for s in p.iter_all(S.TimeSignature)])
+        sp2 = Spec(d, musx_sets=False)
+        if (sp.musical, sp.ts) != shown and (sp2.musical, sp2.ts) == shown:
+            sp = sp2
     first, last = sp.first, sp.last
     tmax = max([last] + [t for t, _ in d["qd"]] + [int(t) for t in p._quarter_times])
     try:
@@ -1156,7 +1302,9 @@ def _eval_part(d):
                 nm, t, nm, first, arr[t - first] - base, c[t], float(c[t])))
         o_t, pick = sp.origin(unit, c)
         v0 = arr[o_t - first]
-        if not close(v0, 0, scale):
+        if not close(v0, 0, scale) and sp.m1_alt is not None and close(arr[sp.origin(unit, c, alt=True)[0] - first], 0, scale):
+            pass  # an end-less and a closed measure start together at the first time point: either may be "the" first measure
+        elif not close(v0, 0, scale):
             t0val = -c[0] if 0 in c else None  # length of [0, first) under the durations in force there
             if first > 0 and t0val is not None and close(v0, t0val, scale):
                 ev.oracle.append("origin-at-time-0: %s is zero at time 0, not at %s %d (part starts at %d): %s(%d) = %r" % (
@@ -1534,6 +1682,9 @@ def distribution(descs, results):
         "wrapper_called_directly": dict(Counter((r.get("info") or {}).get("lin") for r in results
                                                 if isinstance(r, dict) and (r.get("info") or {}).get("lin"))),
         "wrapper_knot_counts": dict(Counter(len(d["xs"]) for d in descs if d.get("kind") == "lin")),
+        "api_edges": dict(Counter(d["mode"] for d in parts if d["mode"].startswith("api/"))),
+        "rejected_table_arguments": dict(Counter(o[0] + ":" + BAD_ARGS[o[1] % len(BAD_ARGS)] for d in parts for o in d["ops"]
+                                                 if o[0] in ("musx", "setx"))),
         "almost_full_first_bar": dict(Counter(d["how"] for d in descs if d.get("kind") == "near")),
         "with_edit_query_history": sum(1 for d in parts if d.get("hist") is not None),
         "warm_up_queries": sum(sum(1 for s in d["hist"] if s[0] in ("q", "w")) for d in parts if d.get("hist") is not None),
